@@ -3,7 +3,8 @@
 // op line:   <alg> <org> <sk> <dk> <w> <h> <so> <do> <spad> <dpad> <arg> <pf> | <src values w*h> | <dst values w*h> [| <src2 values>]
 //   pf    flags of the tree under test: bit 0 = fill_pixels on planar step-iterator views compiles (harness/C04/probe_fill_planar_step.cpp);
 //         without it such an op yields the observation err:no-compile; bit 1 (read by the model only) = image::allocate_ keeps the requested
-//         dimensions of a degenerate (w x 0 / 0 x h) image; bit 2 (read by the model only) = uninitialized_copy_pixels stores through proxy references
+//         dimensions of a degenerate (w x 0 / 0 x h) image; bit 2 (read by the model only) = uninitialized_copy_pixels stores through proxy references;
+//         copyov only, model only: bit 3 / bit 4 = a whole-view / row copy run of this organisation is a block move (observed on probe ops)
 //   alg   copy | fill | equal | foreach | foreachpos | generate | tr1 | tr2 | trpos | cconv | imgeq | fillx | genx | tr1x | copyov | ufill | ucopy | dcons | destruct
 //         ufill / ucopy / dcons / destruct: uninitialized_fill_pixels / uninitialized_copy_pixels / default_construct_pixels / destruct_pixels (like fill / copy)
 //         fillx / genx / tr1x (rgb8, rgb8p): like fill / generate / tr1 but the value / the functor's result is a bgr8_pixel_t, a compatible
